@@ -167,6 +167,15 @@ func (p *WorkerPool) SubmitWait(execute func() interface{}) (interface{}, bool) 
 
 // Stop shuts down the worker pool gracefully
 func (p *WorkerPool) Stop() {
+	// Serialize with Resize: a Resize that overlaps a Stop could close the queue under a
+	// pending Submit, restart the pool next to its old workers, or send on a closed queue.
+	p.resizeMu.Lock()
+	defer p.resizeMu.Unlock()
+	p.stop()
+}
+
+// stop is Stop without taking resizeMu (the caller holds it)
+func (p *WorkerPool) stop() {
 	// Use atomic to ensure we only stop once
 	if !atomic.CompareAndSwapInt32(&p.running, 1, 0) {
 		return // Not running
@@ -241,7 +250,7 @@ func (p *WorkerPool) Resize(maxWorkers int) {
 	// This will close the old queue and wait for all workers to finish
 	if wasRunning {
 		p.resizing = true
-		p.Stop()
+		p.stop()
 		p.resizing = false
 	}
 
